@@ -164,6 +164,8 @@ fn scalar_case(ctx: &mut Ctx, ch: char) {
     for (form, text) in [
         ("inner", format!("osu file format v14\n[Metadata]\nTitle: a{ch}b\nArtist: z\n")),
         ("whole", format!("[Metadata]\nTitle:{ch}\nArtist: z")),
+        // the scalar is the very last character of a file without a final line feed
+        ("last", format!("[Metadata]\nArtist: z\nTitle: a{ch}")),
     ] {
         let utf8 = text.as_bytes();
         let mut nontrivial = false;
